@@ -73,6 +73,9 @@ func (r *vkRecorder) of(kind string, txid bitcoin.Hash32) []vkEvent {
 // outpoint and knows no transactions.
 type vkFetcher struct {
 	calls int
+	// strict: outpoints outside the kit's UTXO universe are unknown to the full node behind the
+	// fetcher, which answers with an error (as the RPC node of cmd/spynoded does)
+	strict bool
 }
 
 func vkFetchedValue(op wire.OutPoint) uint64 { return 900000 + uint64(op.Index)*16 + uint64(op.Hash[0]) }
@@ -81,6 +84,9 @@ func (f *vkFetcher) GetOutputs(ctx context.Context, ops []wire.OutPoint) ([]bitc
 	f.calls++
 	out := make([]bitcoin.UTXO, len(ops))
 	for i, op := range ops {
+		if f.strict && op.Hash[9] != 0xee {
+			return nil, errors.New("No such mempool or blockchain transaction")
+		}
 		out[i] = bitcoin.UTXO{Hash: op.Hash, Index: op.Index, Value: vkFetchedValue(op), LockingScript: bitcoin.Script{0x51, byte(op.Index)}}
 	}
 	return out, nil
